@@ -15,6 +15,9 @@ RULE = ("G-cli: (1) format strings = every name of the usage text and of the dri
         "defines (every spelling, before/after the input, in a later group) aimed at constants whose declared default is a literal, a "
         "forward label, a later constant, an address difference or the current address, the constant being used in the output, "
         "defines of every radix and sign x size-sensitive consumers (#dN, #d, @, sizeof, u8/s8 parameters), "
+        "the real binary also in directories with a history (a longer stale file at every name the command line writes; repeated "
+        "invocations whose outputs shrink; two groups naming one file), each written file compared byte for byte with what the same "
+        "group hands to the mock file server, "
         "run through driver::drive on the mock file server and through the real binary.  non-trivial = distinct format string with a "
         "parameter or an unknown name; distinct input name; distinct command line with >= 2 groups or a derived name or a global "
         "option outside the first group")
@@ -595,6 +598,27 @@ def stream_commands(chk, c, need):
             directed.append({"groups": [dict({"i": [inp], "q": True}, **({"f": f} if f else {}))],
                              "argv": ["customasm", inp, "-q"] + (["-f", f] if f else [])})
         directed.append({"groups": [{"i": [inp], "q": True}, {"f": "symbols"}], "argv": ["customasm", inp, "-q", "--", "-f", "symbols"]})
+    # histories: invocations into the same directory whose outputs shrink from one run to the next (same given name, same
+    # derived name, two groups naming one file); run for real in stream_real, step by step in one directory
+    def step(inp, groups_rest, words):
+        gs = [dict(g) for g in groups_rest]
+        gs[0] = dict(gs[0], i=[inp], q=True)
+        return {"groups": gs, "argv": ["customasm", inp, "-q"] + words}
+    seqs = []
+    for inp in ("main.asm", "iter.asm", "dir/main.asm"):
+        seqs.append([step(inp, [{"f": f, "o": "out.txt"}], ["-f", f, "-o", "out.txt"]) for f in ("annotated", "hexdump", "binstr", "hexstr", "binary")])
+        seqs.append([step(inp, [{"f": f}], ["-f", f]) for f in ("annotated,base:2,group:1", "annotated", "bindump", "binstr", "decc", "hexstr")])
+        seqs.append([step(inp, [{"f": "annotated", "o": os.path.splitext(inp)[0] + ".bin"}], ["-f", "annotated", "-o", os.path.splitext(inp)[0] + ".bin"]),
+                     step(inp, [{}], [])])
+        seqs.append([step(inp, [{"f": a, "o": "both.txt"}, {"f": b, "o": "both.txt"}], ["-f", a, "-o", "both.txt", "--", "-f", b, "-o", "both.txt"])
+                     for a, b in (("annotated", "binstr"), ("binstr", "hexstr"), ("hexstr", "binary"))])
+        seqs.append([step(inp, [{"f": "symbols", "o": "s.txt"}, {"f": "annotated"}], ["-f", "symbols", "-o", "s.txt", "--", "-f", "annotated"]),
+                     step(inp, [{"f": "hexstr", "o": "s.txt"}, {"f": "binstr"}], ["-f", "hexstr", "-o", "s.txt", "--", "-f", "binstr"]),
+                     step(inp, [{"f": "binary", "o": "s.txt"}, {"p": True}], ["-f", "binary", "-o", "s.txt", "--", "-p"])])
+    for sid, sq in enumerate(seqs):
+        for k, cs in enumerate(sq):
+            cs["seq"] = (sid, k)
+            directed.append(cs)
     cases = directed + cases
     # the reference answer: usage text + property text (tools/cli_ref.py); the Coq model, when it can be instantiated, must agree
     ms = [cli_ref.command(c.tables["usage"], cs["groups"]) for cs in cases]
@@ -642,7 +666,7 @@ def stream_commands(chk, c, need):
     chk.cov["spellings"] = spell
     chk.cov["traces_validated_against_impl"] += len(cases)
     chk.cov["disagreements_checked"] += bad
-    return cases, ms
+    return cases, ms, [parse_answer(x) for x in res["debug"]]
 
 
 # ================================================================================================ stream 3b: defines x size-sensitive consumers
@@ -759,37 +783,73 @@ def sane_for_disk(cs):
     return True
 
 
-def run_real(binary, argv, root):
+def run_real(binary, argv, root, stale=None, steps=None):
+    """run the real binary in a scratch directory holding the input files (and `stale`: name -> bytes already lying there).
+    steps = several command lines run one after the other in the same directory.  Returns, for the single command line,
+    (rc, stdout, stderr, files whose content changed); for steps, the list of these (changes relative to the state before the step)."""
     shutil.rmtree(root, ignore_errors=True)
     os.makedirs(root)
     for d in ("dir", "o", "sub"):
         os.makedirs(os.path.join(root, d))
-    before = {}
     for n, p in INPUT_FILES.items():
         path = os.path.join(root, n)
         os.makedirs(os.path.dirname(path), exist_ok=True)
         with open(path, "w") as f:
             f.write(PROGRAMS[p])
-        before[os.path.normpath(n)] = PROGRAMS[p].encode()
-    try:
-        pr = subprocess.run([binary] + argv[1:], cwd=root, stdout=subprocess.PIPE, stderr=subprocess.PIPE, timeout=60)
-        rc, out, err = pr.returncode, pr.stdout, pr.stderr
-    except subprocess.TimeoutExpired:
-        rc, out, err = -999, b"", b""
-    created = {}
-    for dp, _, fs in os.walk(root):
-        for f in fs:
-            rel = os.path.relpath(os.path.join(dp, f), root)
-            data = open(os.path.join(dp, f), "rb").read()
-            if before.get(rel) != data:
-                created[rel] = data
+    for n, data in (stale or {}).items():
+        path = os.path.join(root, n)
+        os.makedirs(os.path.dirname(path), exist_ok=True)
+        with open(path, "wb") as f:
+            f.write(data)
+
+    def snapshot():
+        snap = {}
+        for dp, _, fs in os.walk(root):
+            for f in fs:
+                snap[os.path.relpath(os.path.join(dp, f), root)] = open(os.path.join(dp, f), "rb").read()
+        return snap
+    results = []
+    before = snapshot()
+    for av in (steps if steps is not None else [argv]):
+        try:
+            pr = subprocess.run([binary] + av[1:], cwd=root, stdout=subprocess.PIPE, stderr=subprocess.PIPE, timeout=60)
+            rc, out, err = pr.returncode, pr.stdout, pr.stderr
+        except subprocess.TimeoutExpired:
+            rc, out, err = -999, b"", b""
+        after = snapshot()
+        results.append((rc, out, err, {k: v for k, v in after.items() if before.get(k) != v}, before))
+        before = after
     shutil.rmtree(root, ignore_errors=True)
-    return rc, out, err, created
+    if steps is not None:
+        return results
+    return results[0][:4]
 
 
-def stream_real(chk, c, cases, ms, need):
+def written_content_problems(m, ans, rc, changed, before):
+    """after the run, each written file's bytes are exactly what the same group writes into an empty directory
+    (= the bytes handed to the mock file server by the same command line; two groups naming one file: the last one)"""
+    if m["kind"] != "RUN" or rc != 0 or ans["status"] != "OK":
+        return []
+    exp = {}
+    for w in ans["writes"]:
+        exp[os.path.normpath(bytes.fromhex(w[0]).decode("utf-8", "replace"))] = bytes.fromhex(w[1]) if len(w) > 1 else b""
+    problems = []
+    for name, data in sorted(exp.items()):
+        got = changed.get(name, before.get(name))
+        if got is None:
+            problems.append("%s was not written" % name)
+        elif got != data:
+            if got.startswith(data) and name in before and got[len(data):] == before[name][len(data):]:
+                how = "its %d bytes followed by the tail of the %d-byte file that was there before" % (len(data), len(before[name]))
+            else:
+                how = "%d bytes %r" % (len(got), got[:40])
+            problems.append("%s holds %s; the group writes exactly %d bytes %r" % (name, how, len(data), data[:40]))
+    return problems
+
+
+def stream_real(chk, c, cases, ms, need, answers):
     quick = chk.tier == "quick"
-    pick = [i for i, cs in enumerate(cases) if sane_for_disk(cs)]
+    pick = [i for i, cs in enumerate(cases) if sane_for_disk(cs) and "seq" not in cs]
     rng = chk.rng.fork("real")
     limit = 1000 if quick else 6000
     if len(pick) > limit:
@@ -799,12 +859,68 @@ def stream_real(chk, c, cases, ms, need):
     binary = c.real["debug"]
 
     def work(i):
-        return run_real(binary, cases[i]["argv"], os.path.join(SCRATCH, "real_%d" % i))
+        return run_real(binary, None, os.path.join(SCRATCH, "real_%d" % i), steps=[cases[i]["argv"]])[0]
+
+    # the same command lines again, with a longer stale file of arbitrary bytes already lying at every name they will write
+    def stale_for(i):
+        m = ms[i]
+        if m["kind"] != "RUN":
+            return None
+        r = rng.fork("stale%d" % i)
+        names = sorted(set(os.path.normpath(x[1]) for x in m["actions"] if x[0] == "W") - set(os.path.normpath(x) for x in m["inputs"]))
+        return {n: bytes(r.below(256) for _ in range(r.range(300, 1500))) for n in names} or None
+    stales = {i: stale_for(i) for i in pick}
+    hist = [i for i in pick if stales[i]]
+
+    def work_stale(i):
+        return run_real(binary, None, os.path.join(SCRATCH, "stale_%d" % i), stale=stales[i], steps=[cases[i]["argv"]])[0]
+    seq_ids = sorted(set(cs["seq"][0] for cs in cases if "seq" in cs))
+    seq_cases = {sid: sorted((cs["seq"][1], i) for i, cs in enumerate(cases) if cs.get("seq", (None,))[0] == sid) for sid in seq_ids}
+
+    def work_seq(sid):
+        return run_real(binary, None, os.path.join(SCRATCH, "seq_%d" % sid), steps=[cases[i]["argv"] for _, i in seq_cases[sid]])
     with ThreadPoolExecutor(vlib.NCPU) as ex:
         results = list(ex.map(work, pick))
+        results_stale = list(ex.map(work_stale, hist))
+        results_seq = list(ex.map(work_seq, seq_ids))
     dist = {"exit0": 0, "exit1": 0, "crash": 0}
     bad = 0
-    for i, (rc, out, err, created) in zip(pick, results):
+    clean_rc = {}
+    # --- histories: stale files, then shrinking sequences
+    nhist = 0
+    for i, (rc, out, err, changed, before) in zip(pick, results):
+        clean_rc[i] = rc
+    for i, (rc, out, err, changed, before) in zip(hist, results_stale):
+        cs, m = cases[i], ms[i]
+        nhist += 1
+        problems = written_content_problems(m, answers[i], rc, changed, before)
+        if rc != clean_rc[i]:
+            problems.append("exit status %d, but %d in an empty directory" % (rc, clean_rc[i]))
+        if rc != 0 and changed:
+            problems.append("failed but changed %r" % sorted(changed))
+        if problems:
+            bad += 1
+            report(chk, c, "customasm %r in a directory where %s already exist(s): %s" % (
+                cs["argv"][1:], ", ".join("%s (%d bytes)" % (n, len(d)) for n, d in sorted(stales[i].items())), "; ".join(problems)),
+                {"kind": "real-binary-history", "stream": "real", "steps": [cs["argv"]], "stale": {n: d.hex() for n, d in stales[i].items()},
+                 "exit": rc, "files": {n: d.hex()[:400] for n, d in sorted(changed.items())}}, cls="stale_output_not_replaced")
+    for sid, steps in zip(seq_ids, results_seq):
+        for (k, i), (rc, out, err, changed, before) in zip(seq_cases[sid], steps):
+            cs, m = cases[i], ms[i]
+            nhist += 1
+            problems = written_content_problems(m, answers[i], rc, changed, before)
+            if m["kind"] == "RUN" and asm_expectation(m, need) is True and rc != 0:
+                problems.append("exit status %d" % rc)
+            if problems:
+                bad += 1
+                argvs = [cases[j]["argv"] for _, j in seq_cases[sid]][:k + 1]
+                report(chk, c, "after running %s in the same directory, customasm %r: %s" % (
+                    "; ".join(" ".join(a[1:]) for a in argvs[:-1]) or "(nothing)", cs["argv"][1:], "; ".join(problems)),
+                    {"kind": "real-binary-history", "stream": "real", "steps": argvs, "stale": {}, "exit": rc,
+                     "files": {n: d.hex()[:400] for n, d in sorted(changed.items())}}, cls="stale_output_not_replaced")
+                break
+    chk.count("real-binary-histories", nhist, stale_directories=len(hist), sequences=len(seq_ids))
+    for i, (rc, out, err, created, before) in zip(pick, results):
         cs, m = cases[i], ms[i]
         rp = {"kind": "real-binary", "stream": "real", "argv": cs["argv"], "exit": rc, "stdout": out.decode("utf-8", "replace")[:500],
               "stderr": err.decode("utf-8", "replace")[:500], "files": sorted(created), "model": m.get("cls", m["kind"])}
@@ -863,6 +979,8 @@ def stream_real(chk, c, cases, ms, need):
                 problems.append("diagnostics %s although colour is %s" % ("coloured" if colored else "plain", "on" if m["colors"] else "off"))
         if k == "HELP" and rc == 0 and not all(e["name"].encode() in out for e in c.tables["usage"]["formats"]):
             problems.append("help does not show the usage text")
+        if not problems:
+            problems += written_content_problems(m, answers[i], rc, created, before)
         if problems:
             bad += 1
             cls = None
@@ -892,9 +1010,9 @@ def run(chk):
     stream_names(chk, c)
     need = calibrate(c)
     chk.cov["measured_minimum_budgets"] = need
-    cases, ms = stream_commands(chk, c, need)
+    cases, ms, answers = stream_commands(chk, c, need)
     stream_consumers(chk, c)
-    stream_real(chk, c, cases, ms, need)
+    stream_real(chk, c, cases, ms, need, answers)
     if c.degraded:
         # the broken tie itself, listed after the concrete failing inputs the streams found (if any) but within the printed five
         chk.cov["tie_broken"] = c.degraded
@@ -956,6 +1074,13 @@ def replay(chk, rep):
         now = vlib.run_lines(capture_cmd(c.bins["debug"] + "/cli"),
                              ["C\t%s\t%s\t" % (";".join(vlib.hx(a) for a in r["argv"]), files_field(sorted(set(names))))], shards=1)[0]
         print("command line: %r\nimplementation now: %s\nrecorded: %s\nmodel: %s" % (r["argv"], now[:600], r.get("impl"), r.get("model")))
+    elif kind == "real-binary-history":
+        real = vlib.customasm_build(("debug",))
+        res = run_real(real["debug"], None, os.path.join(SCRATCH, "replay"), stale={n: bytes.fromhex(h) for n, h in r.get("stale", {}).items()}, steps=r["steps"])
+        print("stale files present before: %r" % {n: len(h) // 2 for n, h in r.get("stale", {}).items()})
+        for av, (rc, out, err, changed, before) in zip(r["steps"], res):
+            print("customasm %r -> exit %d, files changed: %r" % (av[1:], rc, {n: (len(d), d[:48]) for n, d in sorted(changed.items())}))
+        print("recorded: exit %s, files %r" % (r.get("exit"), {n: h[:96] for n, h in r.get("files", {}).items()}))
     elif kind == "real-binary":
         real = vlib.customasm_build(("debug",))
         rc, out, err, created = run_real(real["debug"], r["argv"], os.path.join(SCRATCH, "replay"))
